@@ -559,7 +559,8 @@ def gen_corpus(r, tier):
     core = r.choice(c01_corpus.CORES)
     n = r.randint(60, 150) if tier == "quick" else r.randint(200, 1500)
     return {"family": "corpus", "core": core, "param_seed": r.getrandbits(32), "ticks": n, "stim_seed": r.getrandbits(32),
-            "proc_seed": r.getrandbits(32), "schedule": gen_schedule(r, n, ndom=2)[0], "p_active": r.choice([0.3, 0.7, 1.0]), "p_rst": 0.02}
+            "proc_seed": r.getrandbits(32), "schedule": gen_schedule(r, n, ndom=2)[0], "p_active": r.choice([0.3, 0.7, 1.0]), "p_rst": 0.02,
+            "regular_comb": r.random() < 0.5}      # False = the variant litex_sim / Verilator builds use
 
 
 # ------------------------------------------------------------------------------------------------
@@ -986,6 +987,7 @@ def bind_stimulus(scn, db, in_names_a, rst_names, scn2):
         ins = db["inputs"]
         rr = random.Random(scn["stim_seed"])
         pa = scn.get("p_active", 0.7)
+        hints = db.get("hints", {})
         # 1-bit controls are held for a few ticks (handshakes get a chance to complete), data changes freely
         table = []
         cur = [0] * len(ins)
@@ -994,6 +996,9 @@ def bind_stimulus(scn, db, in_names_a, rst_names, scn2):
                 if len(s) == 1:
                     if rr.random() < 0.4:
                         cur[j] = int(rr.random() < pa)
+                elif j in hints and rr.random() < 0.85:
+                    if rr.random() < 0.5:
+                        cur[j] = rr.choice(hints[j]) & ((1 << len(s)) - 1)
                 else:
                     if rr.random() < 0.7:
                         cur[j] = corner(rr, len(s))
